@@ -1,11 +1,12 @@
 (* C02 — EdDSA signing is deterministic, circomlib-conformant and always
    verifiable.  Theorems only; proofs in Proofs/EddsaProofs.v, EddsaInstances.v.
    Generic statements are over any digest H that is total and non-negative on
-   five in-field elements; the instances fix H to the MiMC7 model (and, in
-   Properties/C02_poseidon.v once C01 is assembled, to the Poseidon model). *)
+   five in-field elements; the instances fix H to the MiMC7 model and to the
+   Poseidon model on the regenerated tables (digest = reference Poseidon, C01). *)
 From Coq Require Import ZArith List.
 From Verif Require Import Lib.Params Lib.Octets Spec.Edwards Spec.Blake512 Spec.EdDSASpec
-  Model.Outcome Model.Eddsa Proofs.KeccakStreamProofs Proofs.EddsaProofs Proofs.EddsaInstances.
+  Model.Outcome Model.Eddsa Proofs.KeccakStreamProofs Proofs.EddsaProofs Proofs.EddsaInstances Proofs.EddsaPoseidon.
+From Verif Require Gen.BigIntRoutines Proofs.BigIntEqSign.
 Local Open Scope Z_scope.
 
 Definition digest_ok (H : list Z -> res Z) : Prop :=
@@ -44,11 +45,40 @@ Theorem C02_mimc7_verifies : forall k msg sig, 0 <= msg < q ->
   VerifyMimc7 mimc7h (Public blake512 k) msg sig = Ok tt.
 Proof. exact SignMimc7_verifies. Qed.
 
+(* Poseidon instance: poseidon5 = poseidon.Hash on the regenerated tables *)
+Theorem C02_poseidon_conforms : forall k msg, 0 <= msg < q ->
+  SignPoseidon blake512 poseidon5 k msg = Ok (spec_signature blake512 (Hval poseidon5) k msg).
+Proof. exact SignPoseidon_conforms. Qed.
+
+Theorem C02_poseidon_verifies : forall k msg sig, 0 <= msg < q ->
+  SignPoseidon blake512 poseidon5 k msg = Ok sig ->
+  VerifyPoseidon poseidon5 (Public blake512 k) msg sig = Ok tt.
+Proof. exact SignPoseidon_verifies. Qed.
+
+(* the digest used is the reference Poseidon hash of C01 *)
+Theorem C02_poseidon_digest_is_reference : forall v,
+  Forall (fun x => 0 <= x < q) v -> length v = 5%nat ->
+  poseidon5 v = Ok (Spec.PoseidonRef.poseidon_hash_ref v 0).
+Proof. exact poseidon5_ref. Qed.
+
 (* determinism: [sign_with] is a Gallina function; for the implementation it is
    decided by C16 (no hidden state) and the repeat pass of the purity harness. *)
+(* TRANSLATOR TIE: tools/bigintgen regenerates value-level Gallina from the Go source of these
+   functions at every run (Gen/BigIntRoutines.v); it equals the hand-written model the theorems
+   above are about, for all arguments.  An edit of the Go function breaks this. *)
+Theorem C02_model_is_the_source : forall blake p5 m7,
+  (forall k msg, BigIntRoutines.babyjub_PrivateKey_SignPoseidon blake p5 k msg = SignPoseidon blake p5 k msg) /\
+  (forall k msg, BigIntRoutines.babyjub_PrivateKey_SignMimc7 blake m7 k msg = SignMimc7 blake m7 k msg).
+Proof.
+  intros blake p5 m7.
+  exact (conj (BigIntEqSign.gen_babyjub_PrivateKey_SignPoseidon_eq blake p5) (BigIntEqSign.gen_babyjub_PrivateKey_SignMimc7_eq blake m7)).
+Qed.
+
 Print Assumptions C02_sign_conforms.
 Print Assumptions C02_sign_verifies.
 Print Assumptions C02_roundtrip_verifies.
 Print Assumptions C02_sign_in_range.
 Print Assumptions C02_mimc7_conforms.
 Print Assumptions C02_mimc7_verifies.
+Print Assumptions C02_poseidon_verifies.
+Print Assumptions C02_model_is_the_source.
